@@ -1,3 +1,6 @@
 import Sqljson.Audit
 import Sqljson.Props.C07
+import Sqljson.Props.C07b
 #audit_ns C07 Sqljson.C07
+#audit_ns C07 Sqljson.C07b
+#audit C07 [Sqljson.Exec.Lax.lt_all, Sqljson.Exec.Lax.xItem_lt]
